@@ -374,6 +374,16 @@ fn gauss_lowrank_case(c: &J, tol: f64, worst: &mut f64) -> Result<usize, String>
             }
         }
     }
+    let equi = c["corr"] == "equi";
+    if equi {
+        // equicorrelated: eigenvalues 1 + (d-1) rho and 1 - rho, all outside [1/2, 2]
+        let rho = if c["seed"].as_u64().unwrap() % 2 == 0 { 0.9 } else { 0.8 };
+        for i in 0..d {
+            for j in 0..d {
+                core[i][j] = if i == j { 1.0 } else { rho };
+            }
+        }
+    }
     let cov: Vec<Vec<f64>> = (0..d).map(|i| (0..d).map(|j| sig[i] * core[i][j] * sig[j]).collect()).collect();
     // precision = D^-1 core^-1 D^-1 (inverting the well-conditioned core only)
     let core_inv = invert(&core);
@@ -382,12 +392,34 @@ fn gauss_lowrank_case(c: &J, tol: f64, worst: &mut f64) -> Result<usize, String>
     let logp = QuadLogp { p: prec.clone(), m: mu.clone() };
     let mut math = CpuMath::new(logp);
     let mut lowr = verif::low_rank_mass_matrix(&mut math);
-    let mut s = LowRankMassMatrixStrategy::new(d, LowRankSettings { store_mass_matrix: true, gamma: std::env::var("C08_GAMMA").ok().and_then(|s| s.parse().ok()).unwrap_or(1e-5), eigval_cutoff: 1.00001 });
-    // any placement of the draws: arbitrary points around the mean, not samples of the target
-    for _ in 0..n {
-        let x: Vec<f64> = (0..d).map(|i| mu[i] + sig[i] * 2.0 * rng.next()).collect();
+    let mut s = LowRankMassMatrixStrategy::new(d, LowRankSettings { store_mass_matrix: true, gamma: std::env::var("C08_GAMMA").ok().and_then(|s| s.parse().ok()).unwrap_or(1e-5), eigval_cutoff: if equi { LowRankSettings::default().eigval_cutoff } else { 1.00001 } });
+    let mut xs: Vec<Vec<f64>> = vec![];
+    if equi {
+        // With the default cut-off the estimator may legitimately cut directions whose eigenvalue - as seen through
+        // the window - lies in [1/2, 2]. To know what it sees, the window is a design whose empirical mean and
+        // covariance are exactly the target's: x = mu + D L z for z = +-sqrt(d) e_k (2d draws), L L^T = core.
+        let mut l = vec![vec![0.0; d]; d];
+        for i in 0..d {
+            for j in 0..=i {
+                let sum: f64 = (0..j).map(|k| l[i][k] * l[j][k]).sum();
+                l[i][j] = if i == j { (core[i][i] - sum).sqrt() } else { (core[i][j] - sum) / l[j][j] };
+            }
+        }
+        for k in 0..d {
+            for sgn in [1.0, -1.0] {
+                let z = sgn * (d as f64).sqrt();
+                xs.push((0..d).map(|i| mu[i] + sig[i] * l[i][k] * z).collect());
+            }
+        }
+    } else {
+        // any placement of the draws: arbitrary points around the mean, not samples of the target
+        for _ in 0..n {
+            xs.push((0..d).map(|i| mu[i] + sig[i] * 2.0 * rng.next()).collect());
+        }
+    }
+    for x in &xs {
         let g: Vec<f64> = (0..d).map(|i| -(0..d).map(|j| prec[i][j] * (x[j] - mu[j])).sum::<f64>()).collect();
-        verif::mm_feed(&mut math, &mut s, &x, &g, true);
+        verif::mm_feed(&mut math, &mut s, x, &g, true);
     }
     let before = lowr.verif_dump(&mut math)["id"].as_i64().unwrap();
     <LowRankMassMatrixStrategy as MassMatrixAdaptStrategy<M>>::adapt(&s, &mut math, &mut lowr);
@@ -395,7 +427,7 @@ fn gauss_lowrank_case(c: &J, tol: f64, worst: &mut f64) -> Result<usize, String>
     let now = scales_of(&dump);
     never_degenerate(&now, "gauss_lowrank")?;
     if now.id == before {
-        return Err(format!("gauss_lowrank: a window of {n} draws spanning the space was not used {c}"));
+        return Err(format!("gauss_lowrank: a window of {} draws spanning the space was not used {c}", xs.len()));
     }
     // in the whitened space gradient = -position
     let mut ham = TransformedHamiltonian::new(&mut math, lowr, KineticEnergyKind::Euclidean);
